@@ -14,6 +14,11 @@ def run(rep, kf, tier, seed):
     import contracts.body_refs as cbr
     import contracts.registration as creg
     engine_b.discharge(rep, kf, [creg.model_build_contract()], "C08", tier, seed)
+    # inline enums register into a NEW Schemas: a piece rejected later is rolled back by dropping that object
+    r = core.Report("C08", tier, seed)
+    engine_b.discharge(r, kf, [creg.enum_build_contract(), creg.literal_enum_build_contract()], "C08", tier, seed)
+    r.obligations = [o for o in r.obligations if "C08" in o.props or o.id.endswith("no-exception-escapes")]
+    rep.merge(r)
     import contracts.model_plumbing as cmp_
     engine_b.discharge(rep, kf, cmp_.all_contracts(), "C08", tier, seed)
     import contracts.process_properties as cpp
